@@ -194,7 +194,9 @@ Theorem C06_develop_lattice_located :
   forall (cell : @lat_cell R) (vecs : list (@vec R)) (bs : bounds) (spec : list Z),
   lc_fill cell = FSpec bs spec -> bs <> [] -> wf_bounds bs ->
   Z.of_nat (List.length spec) = size bs ->
-  dimension_checks (List.length vecs) bs = Ok tt ->
+  (* one range per base vector; only the surplus ranges must be one-point
+     ranges: the leading ones may be degenerate too *)
+  (List.length vecs <= List.length bs)%nat -> Forall trivial_range (skipn (List.length vecs) bs) ->
   cell_shape_ok cell ->
   exists elems, develop_lattice_with RS (Ok vecs) cell = Ok elems /\
     map (@ne_index R) elems = map fst (filter nonzero (combine (indices bs) spec)) /\
@@ -203,7 +205,7 @@ Theorem C06_develop_lattice_located :
       in_ranges (ne_index e) bs /\
       let u := nth (Z.to_nat (flat_index bs (ne_index e))) spec 0%Z in
       u <> 0%Z /\ elem_located cell vecs u e) elems.
-Proof. exact develop_lattice_located. Qed.
+Proof. exact develop_lattice_located_ranges. Qed.
 Print Assumptions C06_develop_lattice_located.
 
 (* an index tuple is generated iff it lies in the declared ranges and its array
@@ -217,33 +219,39 @@ Theorem C06_develop_lattice_complete :
 Proof. exact develop_lattice_complete. Qed.
 Print Assumptions C06_develop_lattice_complete.
 
-(* the dimension test of develop_lattice: its loop over the padding ranges can
-   never run, the test is "as many ranges as vectors, or as many NON-TRIVIAL
-   ranges as vectors" *)
+(* the dimension test of develop_lattice (repaired in /repo 9b5a8f0): at least
+   one range per base vector and one-point ranges beyond the lattice dimensions;
+   nothing is required of the leading ranges; any failure is a LatticeError *)
 Theorem C06_dimension_checks_spec : forall (nvec : nat) (bs : bounds),
-  (dimension_checks nvec bs = Ok tt <-> (nvec = List.length bs \/ Z.of_nat nvec = dims bs)) /\
-  (dimension_checks nvec bs <> Ok tt -> dimension_checks nvec bs = Err ELattice).
-Proof. intros; split; [apply dimension_checks_spec|apply dimension_checks_err]. Qed.
+  (dimension_checks nvec bs = Ok tt <->
+     ((nvec <= List.length bs)%nat /\ Forall trivial_range (skipn nvec bs))) /\
+  (dimension_checks nvec bs <> Ok tt -> dimension_checks nvec bs = Err ELattice) /\
+  dimension_checks (List.length bs) bs = Ok tt.
+Proof.
+  intros; split; [apply dimension_checks_spec|]. split; [apply dimension_checks_err|].
+  apply dimension_checks_same_length.
+Qed.
 Print Assumptions C06_dimension_checks_spec.
 
-(* ... and therefore a 2-D lattice whose FILL array has a one-point range in
-   one of its own dimensions (-1:1 0:0 0:0, a row of three elements) is
-   rejected although every other hypothesis of C06_develop_lattice_located
-   holds: finding degenerate_range_rejected *)
-Theorem C06_degenerate_range_refuted :
-  exists (cell : @lat_cell R) (vecs : list (@vec R)) bs spec,
-    lc_fill cell = FSpec bs spec /\ bs = [(-1, 1); (0, 0); (0, 0)]%Z /\ List.length vecs = 2%nat /\
-    wf_bounds bs /\ Z.of_nat (List.length spec) = size bs /\ cell_shape_ok cell /\
-    develop_lattice_with RS (Ok vecs) cell = Err ELattice.
-Proof.
-  exists (mkLatCell 1%Z (FSpec [(-1, 1); (0, 0); (0, 0)]%Z [5; 1; 5]%Z) [] []),
-         [(2, 0, 0)%R; (0, 2, 0)%R], [(-1, 1); (0, 0); (0, 0)]%Z, [5; 1; 5]%Z.
-  repeat split; try reflexivity.
-  - repeat constructor; cbn; lia.
-  - now left.
-  - now left.
-Qed.
-Print Assumptions C06_degenerate_range_refuted.
+(* degenerate leading ranges are accepted and developed: a 2-D lattice with
+   FILL=-1:1 k:k 0:0 (one row, at ANY row number k) yields exactly the elements
+   (i, k, 0) with a non-zero entry, element (i, k, 0) translated by i*a1 + k*a2
+   and filled with entry number i+1 of the array (the former finding
+   degenerate_range_rejected) *)
+Theorem C06_degenerate_ranges_developed :
+  forall (cell : @lat_cell R) (a1 a2 : @vec R) (k u0 u1 u2 : Z),
+  lc_fill cell = FSpec [(-1, 1); (k, k); (0, 0)]%Z [u0; u1; u2] -> cell_shape_ok cell ->
+  exists elems, develop_lattice_with RS (Ok [a1; a2]) cell = Ok elems /\
+    map (@ne_index R) elems
+    = map fst (filter nonzero [([-1; k; 0], u0); ([0; k; 0], u1); ([1; k; 0], u2)]%Z) /\
+    Forall (fun e => exists i u,
+      ne_index e = [i; k; 0]%Z /\ (-1 <= i <= 1)%Z /\ u = nth (Z.to_nat (i + 1)) [u0; u1; u2] 0%Z /\
+      u <> 0%Z /\ lattice_point [a1; a2] (ne_index e)
+                  = vadd RS (rescale RS (IZR i) a1) (vadd RS (rescale RS (IZR k) a2) (0, 0, 0)%R) /\
+      elem_located cell [a1; a2] u e) elems.
+Proof. exact degenerate_ranges_developed. Qed.
+Print Assumptions C06_degenerate_ranges_developed.
+
 
 
 (* ---- the top-level model function (LAT=1), 1, 2 and 3 pairs of planes ------
